@@ -41,6 +41,7 @@ type keysOut struct {
 	EncCh    []byte `json:"enc_chunks"`
 	EncChMax *int   `json:"enc_chunks_max"`
 	Add      bool   `json:"add"`
+	AddPre   bool   `json:"add_pre"`
 	InsErr   int    `json:"ins_err"`
 	GetKind  int    `json:"get_kind"` // ins: 0 value equal to the inserted one, 1 other value, 2 not found, 3 error
 }
@@ -89,6 +90,8 @@ func runKeys(in keysIn) emit.Case {
 		out.EncCh = keys.EncodeChunks(clone(in.K), in.Chunks)
 		out.EncChMax = u16p(keys.MaxChunks(clone(out.EncCh)))
 		out.Add = state.Keys{}.Add(string(in.K), state.Permissions(in.Perm))
+		// the same declaration into a set that already holds the key (put there without Add, as a decoded or literal set does)
+		out.AddPre = state.Keys{string(in.K): state.Write}.Add(string(in.K), state.Permissions(in.Perm))
 		encS := "(@None (list N))"
 		if ok {
 			encS = "(Some " + emit.Bytes(out.Enc) + ")"
@@ -96,7 +99,7 @@ func runKeys(in keysIn) emit.Case {
 		coq = emit.App("KF", emit.Bytes(in.K), emit.Z(int64(in.VLen)), emit.Z(int64(in.MaxSize)),
 			emit.N(uint64(in.MKS)), emit.N(uint64(in.MVC)), emit.N(uint64(in.Chunks)),
 			emit.Bool(out.Valid), optN(out.Max), optN(out.Dec), optN(out.Num), emit.Bool(out.VV), emit.Bool(out.Verify),
-			encS, emit.Bool(out.EncVV), emit.Bytes(out.EncCh), optN(out.EncChMax), emit.Bool(out.Add))
+			encS, emit.Bool(out.EncVV), emit.Bytes(out.EncCh), optN(out.EncChMax), emit.Bool(out.Add), emit.Bool(out.AddPre))
 	} else {
 		ctx := context.Background()
 		storage := state.ImmutableStorage(map[string][]byte{})
